@@ -571,10 +571,11 @@ CodegenResult Theo::gen(Theo::AST in) {
       .funcAddrs = {},
       .labels = {},
       .backpatching_todo = {},
+      // no source position yet: the '-' placeholder also used by the front end
       .fs =
           {
-              .name = "#root_file_context",
-              .line = 0,
+              .name = "-",
+              .line = -1,
           },
   };
 
